@@ -34,7 +34,7 @@ func init() {
 			}}},
 		Quick:    200000,
 		Thorough: 3000000,
-		Require:  []string{"requests.concurrentlyOutstanding", "token.differsOnlyInLeadingZeros", "token.collision", "msg.dup", "msg.forged", "blockwise.continuationServed"},
+		Require:  []string{"requests.concurrentlyOutstanding", "token.differsOnlyInLeadingZeros", "token.collision", "msg.dup", "msg.forged", "blockwise.continuationServed", "middleware.resumedAfterAppWasDone"},
 		Assume: []string{
 			"on datagram transports the scripted peer emits a separate response only after its empty ACK was delivered (the lost/overtaken-ACK case is C06's known finding and is kept out of this check)",
 			"a second request invoked after the first one's answer was already handed to the connection may be accepted or rejected (A.1)",
